@@ -87,6 +87,33 @@ pub fn judge(_w: &Worker, scen: &Scenario, ex: &Exec) -> Judgement {
     simple_judge(v, ex, true)
 }
 
+/// judge for the two-directory scenario: per directory, the old content is kept under a number above that
+/// directory's existing ones and the existing backups are untouched
+pub fn judge_two_dirs(_w: &Worker, _scen: &Scenario, ex: &Exec) -> Judgement {
+    let mut v = vec![];
+    let many_a = _scen.name.contains("many-in-a");
+    for (dir, maxn) in [("a", if many_a { 3u64 } else { 1 }), ("b", if many_a { 1u64 } else { 3 })] {
+        let pre = format!("dstdir/{}/", dir);
+        let old = format!("OLD-{}", dir).into_bytes();
+        for (p, b) in ex.before.iter().filter(|(p, _)| p.starts_with(&pre) && p.contains(".~")) {
+            match ex.snap.get(p) {
+                Some(a) if a.hash == b.hash && a.ino == b.ino => {}
+                _ => v.push(format!("existing backup {} was modified, replaced or removed", p)),
+            }
+        }
+        let holders: Vec<&String> = ex.snap.iter().filter(|(p, n)| p.starts_with(&pre) && n.data.as_deref() == Some(&old[..])).map(|(p, _)| p).collect();
+        if holders.is_empty() {
+            v.push(format!("the previous content of {}f is gone ({})", pre, ex.res.outcome.short()));
+        } else if exit0(ex) {
+            let ok = holders.iter().any(|p| backup_number("f", &p[pre.len()..]).map(|n| n > maxn).unwrap_or(false));
+            if !ok {
+                v.push(format!("exit 0 but the previous content of {}f is not preserved under a number above {} (found at {:?})", pre, maxn, holders));
+            }
+        }
+    }
+    simple_judge(v, ex, true)
+}
+
 fn step_scenario(name: &str, names: &[&str], pre: &[(usize, u64)], mode: &str, d: &str) -> Scenario {
     let mut tree = vec![Entry::dir("src"), Entry::dir("dstdir")];
     for (i, n) in names.iter().enumerate() {
@@ -336,6 +363,39 @@ pub fn run(ctx: &Ctx) -> Report {
                 }
             }
         }
+    }
+    // the same file name in two directories handled by two workers at once (per-directory state must not leak)
+    {
+        let mut jobs = vec![];
+        // (parblock runs the whole backup step in its single dispatcher thread: only parfile has two threads in it)
+        for (d, many) in if q { vec![("parfile", "a"), ("parfile", "b")] } else { vec![("parfile", "a"), ("parfile", "b"), ("parblock", "a"), ("parblock", "b")] } {
+            // which directory is walked first is the file system's choice: the directory with the many (and higher)
+            // backup numbers is `a` in one variant and `b` in the other
+            let few = if many == "a" { "b" } else { "a" };
+            let mut tree = vec![Entry::dir("src"), Entry::dir("src/a"), Entry::dir("src/b"), Entry::dir("dstdir"), Entry::dir("dstdir/a"), Entry::dir("dstdir/b")];
+            tree.push(Entry::file("src/a/f", "NEW-a"));
+            tree.push(Entry::file("src/b/f", "NEW-b"));
+            tree.push(Entry::file("dstdir/a/f", "OLD-a").mtime(1_200_000_000, 1));
+            tree.push(Entry::file("dstdir/b/f", "OLD-b").mtime(1_200_000_001, 1));
+            for n in [1u32, 2, 3] {
+                tree.push(Entry::file(&format!("dstdir/{}/f.~{}~", many, n), &format!("BK-{}-{}", many, n)).mtime(1_100_000_000, n));
+            }
+            tree.push(Entry::file(&format!("dstdir/{}/f.~1~", few), &format!("BK-{}-1", few)).mtime(1_100_000_001, 1));
+            let mut s = Scenario::new(&format!("same-name-two-dirs-{}-many-in-{}", d, many), tree, &["-r", "-T", "--backup", "numbered", "--driver", d, "-w", "2", "src", "dstdir"]);
+            if !sets::ATOMIC_AVAILABLE.load(std::sync::atomic::Ordering::Relaxed) {
+                rep.extra.insert("atomic_grain".into(), json!("NOT RUN: the opt-level-1 build or its list of atomic instructions is unavailable"));
+                continue;
+            }
+            s.prog = crate::scen::Prog::XcpAtomic;
+            s.name.push_str("-atomic@atomicpoints");
+            let s = Arc::new(s);
+            for b in base_specs() {
+                jobs.push((s.clone(), b, 2usize));
+            }
+        }
+        let jt: Judge = &judge_two_dirs;
+        let st = explore(&ctx.pool, jobs, jt);
+        rep.part("one file name in two directories, two workers, at atomic grain, d<=2 with pre-emption at atomic instructions and markers", st, json!({"d": 2, "grain": "system calls, hook markers and the atomic instructions of xcp's own code"}));
     }
     let st = c03::kill_sweep(ctx, &kill, 0, j);
     rep.part("SIGKILL at every decision point of an overwrite step", st, json!({"scenarios": kill.len()}));
